@@ -18,9 +18,16 @@ import (
 // into a caller's buffer is seen), nil-vs-empty distinctions and dynamic Go
 // types (int vs int64 labels differ). Two values have equal hashes iff no
 // observable part of them differs.
-func DeepHash(vs ...any) string {
+func DeepHash(vs ...any) string { return deepHash(true, vs...) }
+
+// DeepHashValue is DeepHash without the spare capacity behind slice lengths:
+// it compares two independently built values for equality of everything a
+// caller can observe without re-slicing.
+func DeepHashValue(vs ...any) string { return deepHash(false, vs...) }
+
+func deepHash(tails bool, vs ...any) string {
 	h := sha256.New()
-	d := &deepHasher{h: h, seen: map[visit]bool{}}
+	d := &deepHasher{h: h, seen: map[visit]bool{}, tails: tails}
 	for _, v := range vs {
 		if v == nil {
 			d.str("<nil-iface>")
@@ -37,8 +44,9 @@ type visit struct {
 }
 
 type deepHasher struct {
-	h    hash.Hash
-	seen map[visit]bool
+	h     hash.Hash
+	seen  map[visit]bool
+	tails bool
 }
 
 func (d *deepHasher) str(s string) {
@@ -89,14 +97,19 @@ func (d *deepHasher) walk(v reflect.Value, depth int) {
 			return
 		}
 		d.u64(uint64(v.Len()))
-		full := v.Slice(0, v.Cap()) // include the capacity tail
+		full := v
+		if d.tails {
+			full = v.Slice(0, v.Cap()) // include the capacity tail
+		}
 		if v.Type().Elem().Kind() == reflect.Uint8 {
 			d.u64(uint64(full.Len()))
 			d.h.Write(full.Bytes())
 			return
 		}
 		// tails of non-byte slices: only the length part is walked, plus cap
-		d.u64(uint64(v.Cap()))
+		if d.tails {
+			d.u64(uint64(v.Cap()))
+		}
 		for i := 0; i < v.Len(); i++ {
 			d.walk(v.Index(i), depth+1)
 		}
@@ -118,10 +131,10 @@ func (d *deepHasher) walk(v reflect.Value, depth int) {
 		it := v.MapRange()
 		for it.Next() {
 			hk := sha256.New()
-			dk := &deepHasher{h: hk, seen: d.seen}
+			dk := &deepHasher{h: hk, seen: d.seen, tails: d.tails}
 			dk.walk(it.Key(), depth+1)
 			hv := sha256.New()
-			dv := &deepHasher{h: hv, seen: d.seen}
+			dv := &deepHasher{h: hv, seen: d.seen, tails: d.tails}
 			dv.walk(it.Value(), depth+1)
 			ents = append(ents, ent{string(hk.Sum(nil)), string(hv.Sum(nil))})
 		}
